@@ -50,8 +50,9 @@ def _files(ctx):
         return allf
     rnd = random.Random(ctx.seed * 7 + 1)
     special = rnd.choice(["PARAM.AA", "PARAM.GR"])          # a perennial crop is always in (re-sown stand rule)
-    others = rnd.sample([f for f in allf if f != special], 2)
-    return [special] + others
+    nlimit = rnd.choice(["PARAM.SM", "PARAM.ZR"])           # ... and a crop whose N uptake limit reads the total temperature sum
+    others = rnd.sample([f for f in allf if f not in (special, nlimit)], 1)
+    return [special, nlimit] + others
 
 
 def _plan(ctx):
@@ -375,16 +376,14 @@ def _oracle(ctx, search, env):
                                         "parameters, a set rejected as a whole) for %s under the project's own configuration and under %d settings with one "
                                         "key changed (%s)" % (sweep_n, fn0, len(F.sweep_items(ctx.thorough)), ", ".join(i_[0] for i_ in F.sweep_items(ctx.thorough))))
     runs = F.run_lines(env, "C18", lines, timeout=1800)
-    for iname, bi, byi in sweep_base:
-        for x in (bi, byi):
-            if runs[x].err:
-                fails.append(Fail(key=("sweep-run-error:tillage-postponed-under-AutoHarvest:%s" if "before harvest" in runs[x].err else "sweep-run-error:%s") % iname, what="a run with one configuration key changed (%s) fails: %s" % (iname, runs[x].err), line=runs[x].line))
+    sweep_errors = ["%s: %s" % (iname, runs[x].err[:120]) for iname, bi, byi in sweep_base for x in (bi, byi) if runs[x].err]
     effective = both_failed = 0
+    base_errors = []
     for fn, pr in projects.items():
         for (name, P, kind, pne, bi, byi, pex) in pr[0]:
             for x in (bi, byi):
                 if runs[x].err:
-                    fails.append(Fail(key="baseline-run-failed:%s:%s" % (fn, kind), what="the run without override fails: %s" % runs[x].err, line=runs[x].line))
+                    base_errors.append("%s:%s: %s" % (fn, kind, runs[x].err[:120]))
     for fn, key, text, valid, a, b_, ya, yb, base_i in pairs:
         for x, y, w in ((a, b_, "classic"), (ya, yb, "yaml")):
             if x is None or y is None:
@@ -414,6 +413,9 @@ def _oracle(ctx, search, env):
     ctx.extra["pairs"] = sum(1 for p_ in pairs for q in ((p_[4], p_[5]), (p_[6], p_[7])) if q[0] is not None and q[1] is not None)
     ctx.extra["valid_overrides_that_change_the_results"] = effective
     ctx.extra["pairs_where_both_runs_fail_alike"] = both_failed
+    ctx.extra["runs_without_override_that_end_in_a_run_error"] = base_errors + sweep_errors
+    if pairs and both_failed * 2 > ctx.extra["pairs"]:
+        fails.append(Fail(key="oracle-vacuous", what="more than half of the pairs end in run errors on both sides: the run sets do not exercise the property"))
     ctx.extra["run_wall_s"] = round(env.run_wall, 1)
     ctx.extra["rotations"] = {fn: [v[2] for v in pr[0]] for fn, pr in projects.items()}
     return fails
